@@ -138,13 +138,10 @@ def _resume_runs(env: Env, out: Outcome, n: int, extra: list[dict]) -> None:
         if waiting:
             out.nontrivial((repr(spec), tuple(tr1.actions), tuple(tr2.actions)))
         case = {"resume": {"spec": spec, "seed": seed, "actions1": tr1.actions, "actions2": tr2.actions}}
-        def _rec_id(w: Any) -> str:
-            # the id the step records for this waiter (auto-generated ids are recorded as auto<type>:<k>)
-            if str(w.waiter_id).startswith("waiter_"):
-                return f"auto{ET.TY_ID[w.waiting_for_event]}:{(w.requirements or {}).get('k')!r}"
-            return w.waiter_id
-
-        rehydrated = {(nm, _rec_id(w)) for nm, w in waiting if w.has_requirements or w.requirements}
+        rehydrated = {(nm, w.waiter_id) for nm, w in waiting if w.has_requirements or w.requirements}
+        # auto-generated waiter ids are recorded by the step body as auto<type>:<own requirement value>
+        rehydrated |= {(nm, f"auto{ET.TY_ID[w.waiting_for_event]}:{(w.requirements or {}).get('k')!r}") for nm, w in waiting
+                       if (w.has_requirements or w.requirements) and str(w.waiter_id).startswith("waiter_")}
         for v in monitors.mon_c10(tr2, earlier_users=monitors.c10_waiter_users(tr1)):
             v.replay = case
             if v.signature == "C10/resumed_more_than_once" and any(f"'{nm}'" in v.what and f"'{wid}'" in v.what for nm, wid in rehydrated if (nm, wid) in rehydrated):
@@ -188,4 +185,7 @@ def run(env: Env) -> Outcome:
     suite.live_runs(env, out, env.budget(50, 1000), [monitors.mon_c10], extra_specs=[c for c in corpus if "spec" in c])
     suite.live_runs(env, out, env.budget(250, 5000), [monitors.mon_c10], gen_kwargs={"family": "wait"})
     _resume_runs(env, out, env.budget(120, 2400), corpus)
+    # waiting steps with a retry policy that fail before / after their wait (the replay continues the retried invocation);
+    # last, so that the streams above are what they were before this family existed
+    suite.live_runs(env, out, env.budget(80, 1600), [monitors.mon_c10], gen_kwargs={"family": "wait_retry"})
     return out
